@@ -8,10 +8,13 @@
 
      attr   one attribute `a` of an instance k / its class K: present in the instance
             __dict__, in the class or a base class (as plain value, function, property,
-            annotated property, user data / non-data / set-only descriptor, staticmethod,
-            classmethod, slot member, class-with-__get__), on the metaclass (plain, function,
-            property, user data / non-data descriptor); class hooks __getattr__ /
-            __getattribute__; forms  k. | k.a | k.a. | infer/goto/help on k.a  (and K...).
+            annotated property, user descriptor object whose type defines any of the 7
+            non-empty subsets of {__get__, __set__, __delete__}, staticmethod, classmethod,
+            slot member, class-with-__get__), on the metaclass (plain, function, property,
+            the same 7 user descriptor kinds); every descriptor kind is crossed with the
+            presence of a same-named entry in the instance __dict__ (receiver k) / in the
+            class body (receiver K, descriptor on the metaclass); class hooks __getattr__ /
+            __getattribute__; forms  k. | k.a | k.a. | k.a( | infer/goto/help on k.a  (and K...).
      proto  user protocol methods SUBSET {__getitem__,__iter__,__next__,__call__,__len__,
             __bool__} on a class deriving from object or list; forms k[0]. k(). for/unpack,
             if/or/not, next(k). len(k). k.
@@ -28,7 +31,7 @@
                 ALLOWED_GETITEM_TYPES / ALLOWED_DESCRIPTOR_ACCESS,
                 value.py:CompiledValueFilter.get/_get/values, CompiledName.api_type,
                 mixed.py:MixedObject routing / MixedName.infer / _create.
-   Deviations of the code from the Reference are modelled as they are and named D1..D6;
+   Deviations of the code from the Reference are modelled as they are and named D1..D7;
    the constant Fixed selects which of them are modelled as repaired (Fixed = {} is the
    unchanged tree, Fixed = AllDev is the tree with every proposed patch).                 *)
 EXTENDS Naturals, Sequences, FiniteSets, TLC, Json
@@ -37,7 +40,7 @@ CONSTANTS MaxPath,      \* maximal number of holders in a path case
           EmitMod, EmitRem,
           Fixed         \* subset of AllDev modelled as repaired
 
-AllDev == {"D1", "D2", "D3", "D4", "D5", "D6"}
+AllDev == {"D1", "D2", "D3", "D4", "D5", "D6", "D7"}
 (* D1  getattr_static reports a hit on the *metaclass* (receiver is a class) with
        is_get_descriptor = FALSE, so a property / descriptor on the metaclass is executed
        by getattr() in safe mode                                  (getattr_static.py, tail)
@@ -50,18 +53,27 @@ AllDev == {"D1", "D2", "D3", "D4", "D5", "D6"}
        the exact-type gate) -> user __iter__ of a list subclass, reached in safe mode when
        py__simple_getitem__ has refused the subclass
    D6  MixedName.infer returns the empty set for a function-valued attribute that the
-       source of the class does not define (dynamic attribute holding a function)         *)
+       source of the class does not define (dynamic attribute holding a function)
+   D7  CompiledValue.get_signatures -> _parse_function_doc -> DirectObjectAccess.py__doc__ =
+       inspect.getdoc(obj): for a function / bound method without a docstring CPython's
+       inspect._finddoc does a real getattr(C, name) on the class of the method and on every
+       class of its MRO, i.e. type.__getattribute__, which runs a property / user data
+       descriptor of the same name on the *metaclass* (`k.a(` in safe mode)                *)
 
 ---------------------------------------------------------------------------
 (* Vocabulary *)
+\* user descriptor objects, by the protocol methods their type defines:
+\*   nddesc {get}   setonly {set}   delonly {delete}   ddesc {get,set}   gddesc {get,delete}
+\*   sddesc {set,delete}   gsddesc {get,set,delete}
 ClsKinds  == <<"none", "plain", "func", "prop", "propann", "ddesc", "nddesc", "setonly",
-               "static", "clsm", "slot", "dcls">>
-MetaKinds == <<"none", "plain", "func", "prop", "ddesc", "nddesc">>
+               "static", "clsm", "slot", "dcls", "delonly", "gddesc", "sddesc", "gsddesc">>
+MetaKinds == <<"none", "plain", "func", "prop", "ddesc", "nddesc", "setonly", "delonly",
+               "gddesc", "sddesc", "gsddesc">>
 Hooks     == <<"none", "getattr", "getattribute">>
 Protos    == <<"getitem", "iter", "next", "call", "len", "bool">>
 Holders   == <<"inst", "dict", "list", "tuple", "lsub">>
 Leaves    == <<"int", "str", "float", "none", "bytes", "list", "dict", "tuple", "inst", "func", "cls">>
-AttrForms == <<"dot", "dot_type", "attr_c", "attr_dot", "infer", "goto", "help">>
+AttrForms == <<"dot", "dot_type", "attr_c", "attr_dot", "infer", "goto", "help", "sig">>
 ProtoForms == <<"dot", "item", "item_i", "call", "call_sig", "for", "unpack", "if", "or", "not",
                 "next", "len">>
 PathForms == <<"infer", "dot">>
@@ -69,32 +81,48 @@ Range(s) == {s[i] : i \in 1..Len(s)}
 Idx(s, x) == CHOOSE i \in 1..Len(s) : s[i] = x
 
 \* tags logged by the user-defined special methods of the rendered objects
-Judged == {"prop", "dget", "ndget", "mprop", "mdget", "mndget",
+Judged == {"prop", "dget", "ndget", "gdget", "gsdget", "mprop", "mdget", "mndget", "mgdget", "mgsdget",
            "getitem", "iter", "next", "call", "len", "bool"}
 
 ---------------------------------------------------------------------------
 (* Reference, part 1: what CPython does  (validated against CPython by the harness) *)
 
-\* type(attr) defines __get__ / (__set__ or __delete__)
-HasGet(k) == k \in {"func", "prop", "propann", "ddesc", "nddesc", "static", "clsm", "slot"}
-IsData(k) == k \in {"prop", "propann", "ddesc", "setonly", "slot"}
+\* The object vocabulary: which descriptor protocol methods type(attr) defines
+\* (property and member_descriptor define all three; functions, staticmethod, classmethod only __get__)
+Methods(k) == CASE k \in {"func", "static", "clsm", "nddesc"} -> {"get"}
+              [] k \in {"prop", "propann", "slot", "gsddesc"} -> {"get", "set", "delete"}
+              [] k = "ddesc" -> {"get", "set"}
+              [] k = "gddesc" -> {"get", "delete"}
+              [] k = "setonly" -> {"set"}
+              [] k = "delonly" -> {"delete"}
+              [] k = "sddesc" -> {"set", "delete"}
+              [] OTHER -> {}
+\* Python data model: a descriptor with __get__ is a *data* descriptor iff it defines __set__ OR
+\* __delete__ (CPython: tp_descr_set is filled by either); data descriptors on the type take
+\* priority over the instance __dict__ (over the class's own MRO for a class receiver)
+HasGet(k) == "get" \in Methods(k)
+IsData(k) == Methods(k) \cap {"set", "delete"} # {}
 \* user code run when the descriptor's __get__ is invoked with an instance
 GetTag(k)  == CASE k \in {"prop", "propann"} -> {"prop"} [] k = "ddesc" -> {"dget"}
-              [] k = "nddesc" -> {"ndget"} [] OTHER -> {}
+              [] k = "nddesc" -> {"ndget"} [] k = "gddesc" -> {"gdget"} [] k = "gsddesc" -> {"gsdget"}
+              [] OTHER -> {}
 \* ... with instance None (access through the class): property.__get__(None, K) returns the
 \* property object and runs nothing; user descriptors run
-GetTagViaClass(k) == CASE k = "ddesc" -> {"dget"} [] k = "nddesc" -> {"ndget"} [] OTHER -> {}
+GetTagViaClass(k) == CASE k = "ddesc" -> {"dget"} [] k = "nddesc" -> {"ndget"}
+                     [] k = "gddesc" -> {"gdget"} [] k = "gsddesc" -> {"gsdget"} [] OTHER -> {}
 MetaTag(k) == CASE k = "prop" -> {"mprop"} [] k = "ddesc" -> {"mdget"}
-              [] k = "nddesc" -> {"mndget"} [] OTHER -> {}
+              [] k = "nddesc" -> {"mndget"} [] k = "gddesc" -> {"mgdget"} [] k = "gsddesc" -> {"mgsdget"}
+              [] OTHER -> {}
 
 \* class name of the object the lookup yields ("other": functions, bound methods, descriptor
 \* objects, classes: presence is compared, not the name)
 InstVal(k) == CASE k = "plain" -> "str" [] k = "prop" -> "float" [] k = "propann" -> "bytes"
-              [] k = "ddesc" -> "complex" [] k = "nddesc" -> "bytearray" [] k = "slot" -> "list"
-              [] OTHER -> "other"
-ClsVal(k)  == CASE k = "plain" -> "str" [] k = "ddesc" -> "complex" [] k = "nddesc" -> "bytearray"
-              [] OTHER -> "other"
-MetaVal(k) == CASE k = "plain" -> "frozenset" [] k = "prop" -> "tuple" [] k = "ddesc" -> "set"
+              [] k \in {"ddesc", "gddesc", "gsddesc"} -> "complex" [] k = "nddesc" -> "bytearray"
+              [] k = "slot" -> "list" [] OTHER -> "other"
+ClsVal(k)  == CASE k = "plain" -> "str" [] k \in {"ddesc", "gddesc", "gsddesc"} -> "complex"
+              [] k = "nddesc" -> "bytearray" [] OTHER -> "other"
+MetaVal(k) == CASE k = "plain" -> "frozenset" [] k = "prop" -> "tuple"
+              [] k \in {"ddesc", "gddesc", "gsddesc"} -> "set"
               [] k = "nddesc" -> "dict" [] OTHER -> "other"
 
 \* getattr(k, 'a') / getattr(K, 'a'):  [where the value comes from, user code run, class of value]
@@ -130,19 +158,25 @@ PyItemExec(s) == IF "getitem" \in s.protos THEN {"getitem"} ELSE {}
 \* MemberDescriptorType, ..., staticmethod, classmethod)
 AllowedDescr(k) == k \in {"func", "static", "clsm", "slot"}
 
+\* getattr_static._safe_hasattr(attr, '__get__'): _check_class(type(attr), '__get__') is not _sentinel
+SafeHasGet(k) == "get" \in Methods(k)
+\* getattr_static._safe_is_data_descriptor(attr):
+\*   _safe_hasattr(attr, '__set__') or _safe_hasattr(attr, '__delete__')
+SafeIsDataDescr(k) == IF "set" \in Methods(k) THEN TRUE ELSE "delete" \in Methods(k)
+
 \* getattr_static(obj, 'a') -> [hit, isget, kind]
 GetattrStatic(s, F) ==
   LET instRes == s.recv = "inst" /\ s.inst      \* _check_instance (only when not _is_type(obj))
       clsRes  == s.ck # "none"                  \* _check_class(klass, attr) over the MRO
-  IN IF instRes /\ clsRes /\ HasGet(s.ck) /\ IsData(s.ck)
-       THEN [hit |-> "cls", isget |-> TRUE, kind |-> s.ck]        \* get/set descriptor has priority
-     ELSE IF s.recv = "cls" /\ "D2" \in F /\ HasGet(s.mk) /\ IsData(s.mk)
+  IN IF instRes /\ clsRes /\ SafeHasGet(s.ck) /\ SafeIsDataDescr(s.ck)
+       THEN [hit |-> "cls", isget |-> TRUE, kind |-> s.ck]        \* data descriptor has priority over the instance dict
+     ELSE IF s.recv = "cls" /\ "D2" \in F /\ SafeHasGet(s.mk) /\ SafeIsDataDescr(s.mk)
        THEN [hit |-> "meta", isget |-> TRUE, kind |-> s.mk]       \* repaired: metatype data descriptor first
      ELSE IF instRes THEN [hit |-> "inst", isget |-> FALSE, kind |-> "plain"]
-     ELSE IF clsRes THEN [hit |-> "cls", isget |-> HasGet(s.ck), kind |-> s.ck]
+     ELSE IF clsRes THEN [hit |-> "cls", isget |-> SafeHasGet(s.ck), kind |-> s.ck]
      ELSE IF s.recv = "cls" /\ s.mk # "none"
        THEN [hit |-> "meta", kind |-> s.mk,
-             isget |-> IF "D1" \in F THEN HasGet(s.mk) ELSE FALSE]  \* D1: `return entry.__dict__[attr], False`
+             isget |-> IF "D1" \in F THEN SafeHasGet(s.mk) ELSE FALSE]  \* D1: `return entry.__dict__[attr], False`
      ELSE [hit |-> "none", isget |-> FALSE, kind |-> "none"]
 
 \* DirectObjectAccess.is_allowed_getattr(name, safe) -> [has, isdesc, annot, exec]
@@ -177,6 +211,19 @@ FilterValues(s, F) ==
                  ELSE "real",
         isdesc |-> a.isdesc]
 
+\* py__doc__ of the value found for `k.a` = inspect.getdoc(value) [D7]: a bound method (function,
+\* classmethod) -> _finddoc: getattr(K, 'a') for K and every base; a staticmethod is a bare function ->
+\* _findclass resolves K through sys.modules[__module__] and __qualname__ (only a class of a real module,
+\* and only the class whose body defines it), then getattr(K, 'a').  getattr on the class runs a
+\* data descriptor of the metaclass (PyLookup of the class receiver).
+DocExec(s, F) ==
+  IF "D7" \in F THEN {}
+  ELSE IF /\ s.recv = "inst" /\ PyLookup(s).where = "cls"
+          /\ (s.ck \in {"func", "clsm"} \/ (s.ck = "static" /\ s.cw = "own" /\ s.src = "file"))
+       THEN LET viaClass == PyLookup([s EXCEPT !.recv = "cls", !.inst = FALSE])
+            IN IF viaClass.where = "meta" THEN viaClass.exec ELSE {}
+       ELSE {}
+
 \* user code run by one attribute query
 AttrExec(s, F) ==
   LET n == FilterGet(s, F)
@@ -185,6 +232,8 @@ AttrExec(s, F) ==
      [] s.form = "dot_type" ->          \* Completion.type -> CompiledName.api_type
           LET v == FilterValues(s, F) IN IF v.kind = "real" /\ ~v.isdesc THEN real ELSE {}
      [] s.form \in {"infer", "attr_dot"} -> n.exec \cup (IF n.kind = "real" THEN real ELSE {})
+     \* `r.a(` get_signatures: infers r.a, then value.get_signatures(): inspect.signature + py__doc__
+     [] s.form = "sig" -> n.exec \cup (IF n.kind = "real" THEN real \cup DocExec(s, F) ELSE {})
      [] OTHER ->                        \* goto / help (+ Name.type read by the harness):
           \* MixedName.start_pos infers when the receiver is a MixedObject (class source
           \* available); CompiledName.api_type infers unless is_descriptor
@@ -354,7 +403,7 @@ Done == st = "done"
 ---------------------------------------------------------------------------
 (* Invariants: Design |= Reference *)
 
-\* strict: violated on the unchanged tree (Fixed = {}) by D1..D5; holds with Fixed = AllDev
+\* strict: violated on the unchanged tree (Fixed = {}) by D1..D5, D7; holds with Fixed = AllDev
 SafeNoExec == Done => RefSafe(c, Exec(c, Fixed))
 InferPlainExact == Done => RefInfer(c, Res(c, Fixed))
 NamesSupersetDir == Done => RefNames(c, NamesOK(c, Fixed))
